@@ -152,6 +152,23 @@ int main(int argc, char **argv) {
             if (v.ok()) { parmcb::SpVecFP<long> z = x + y; for (int q = 0; q < dim; q++) dz[q] = dx[q] + dy[q]; v = spvecfp_matches<long>(z, dz, pl, "a+b"); }
             if (!v.ok()) { std::cout << "REPLAY-FAIL " << v.kind << ": " << v.detail << std::endl; return 1; }
             std::cout << "REPLAY-OK" << std::endl; return 0;
+        } else if (a == "--replay-scale" && i + 3 < argc) {
+            // --replay-scale p "i:v,i:v" a: the operand (built from unit vectors, checked first), then operand * a
+            long pl = atol(argv[i + 1]), sc = atol(argv[i + 3]); const int dim = 16;
+            parmcb::SpVecFP<long> x(pl); std::vector<long> dx(dim, 0), dz(dim, 0);
+            std::string t = argv[i + 2]; size_t pos = 0;
+            while (pos < t.size() && t != "-") {
+                size_t c = t.find(':', pos), e = t.find(',', pos); if (e == std::string::npos) e = t.size();
+                long idx = atol(t.substr(pos, c - pos).c_str()), val = atol(t.substr(c + 1, e - c - 1).c_str());
+                if (idx < 0 || idx >= dim) { std::cout << "REPLAY-SKIP index outside the replay dimension" << std::endl; return 0; }
+                parmcb::SpVecFP<long> u(pl); u = (std::size_t) idx;
+                for (long q = 0; q < val; q++) x += u;          // built by additions only: the scaling under test is not used to build its own input
+                dx[idx] += val; pos = e + 1;
+            }
+            Verdict v = spvecfp_matches<long>(x, dx, pl, "operand");
+            if (v.ok()) { parmcb::SpVecFP<long> z = x * sc; for (int q = 0; q < dim; q++) dz[q] = dx[q] * sc; v = spvecfp_matches<long>(z, dz, pl, "v*a"); }
+            if (!v.ok()) { std::cout << "REPLAY-FAIL " << v.kind << ": " << v.detail << std::endl; return 1; }
+            std::cout << "REPLAY-OK" << std::endl; return 0;
         } else if (a == "--replay-inv" && i + 2 < argc) {
             long x = atol(argv[i + 1]), y = atol(argv[i + 2]);
             Verdict v = inv_contract<long>(x, y);
